@@ -1,6 +1,7 @@
 package graphql
 
 import (
+	"github.com/graphql-go/graphql/verifhook"
 	"encoding/json"
 	"fmt"
 	"math"
@@ -349,6 +350,7 @@ func isIterable(src interface{}) bool {
  *
  */
 func valueFromAST(valueAST ast.Value, ttype Input, variables map[string]interface{}) interface{} {
+	verifhook.Count(verifhook.ValueFromAST)
 	if valueAST == nil {
 		return nil
 	}
